@@ -99,6 +99,7 @@ class BHistory:
         self.p_hashval = r.choice([0.0, 0.0, 0.1, 0.3])
         self.p_bodyval = r.choice([0.0, 0.0, 0.1, 0.3])
         self.p_hdl = r.choice([0.0, 0.0, 0.1, 0.3])
+        self.p_sub = r.choice([0.0, 0.0, 0.2, 0.5])
 
     def via(self):
         return "d" if self.via_dict and self.rng.random() < 0.6 else "m"
@@ -109,7 +110,7 @@ class BHistory:
         kind = rng.choices(kinds, [self.w[k] for k in kinds])[0]
         present = self.present
         if kind == "reopen":
-            return {"op": "reopen", "root": rng.randrange(1000) if rng.random() < 0.3 else -1}
+            return {"op": "reopen", "root": rng.randrange(1000) if rng.random() < 0.4 else -1, "assign": int(rng.random() < 0.5)}
         if kind in ("del", "sete") and present and rng.random() < 0.8:
             k = rng.choice(sorted(present))
         elif kind == "sub":
@@ -130,6 +131,8 @@ class BHistory:
                 c["vb"] = rng.randrange(1000)
             if rng.random() < self.p_hdl:
                 c["hdl"] = 1
+            if rng.random() < self.p_sub:
+                c["sub"] = 1
             return c
         present.pop(k, None)
         return {"op": kind, "k": hx(k), "via": self.via()}
